@@ -143,8 +143,15 @@ def run(ctx, rep):
     else:
         try:
             paths = decide.bool_paths(P, F, io)
-            ok, why = decide.check_formula(paths, {"arch": "has_archive_semantics", "whole": "whole_archive", "dyn": "is_dynamic", "asn": "as_needed"},
-                                           lambda v: (v["arch"] and not v["whole"]) or (v["dyn"] and v["asn"]))
+            dom = decide.table_atoms(paths)
+            if any("has_archive_semantics" in a for a in dom):
+                ok, why = decide.check_formula(paths, {"arch": "has_archive_semantics", "whole": "whole_archive", "dyn": "is_dynamic", "asn": "as_needed"},
+                                               lambda v: (v["arch"] and not v["whole"]) or (v["dyn"] and v["asn"]))
+            else:
+                # has_archive_semantics() written out: archive entry (regular archives) || modifiers.archive_semantics (thin members, --start-lib)
+                ok, why = decide.check_formula(paths, {"entry": "is_archive_entry", "sem": "archive_semantics", "whole": "whole_archive", "dyn": "is_dynamic", "asn": "as_needed"},
+                                               lambda v: ((v["entry"] or v["sem"]) and not v["whole"]) or (v["dyn"] and v["asn"]))
+                why += " (has_archive_semantics expanded to is_archive_entry || modifiers.archive_semantics)"
             rep.ob("is-optional-atoms", "truth-table", ok, f"{len(paths)} paths; {why}", io.file, io.line)
         except decide.NotLoopFree as e:
             rep.ob("is-optional-atoms", "truth-table", False, f"is_optional is no longer loop-free: {e}", io.file, io.line)
